@@ -145,10 +145,19 @@ type Ruleset struct {
 	Sets map[string]*Set
 	// Maps: nftables verdict maps: name (as it appears after '@') -> key -> verdict text
 	// ("goto <chain>", "jump <chain>", "return", "accept", "drop").
-	Maps   map[string]map[string]string
-	chains map[string]*chain
-	order  []string
-	err    error
+	Maps map[string]map[string]string
+	// Unloadable: set names that the harness can attribute (e.g. Felix's name for one of the
+	// rule's own set IDs but for the OTHER IP version) and that a table of this IP version
+	// cannot reference: ip(6)tables-restore rejects a set of the other family ("The protocol
+	// family of set X is IPv4, which is not applicable"), and an nftables ip/ip6 table simply
+	// does not contain the other family's sets.  name -> reason.  A rule naming such a set makes
+	// the load fail (*InvalidError); a name found in neither Sets nor Unloadable stays a gap.
+	Unloadable map[string]string
+	chains     map[string]*chain
+	setsOK     bool
+	setsFP     [2]int
+	order      []string
+	err        error
 	// MaxSteps bounds the number of rule evaluations per packet (loop guard).
 	MaxSteps int
 }
@@ -162,6 +171,15 @@ type chain struct {
 type rule struct {
 	text  string
 	items []item // evaluated left to right
+	// setRefs: every IP set the rule text names, with the number of dimensions the match
+	// supplies (1: address, 2: address+port).  Checked as a whole by CheckSets, because a
+	// reference the real tools cannot resolve fails the LOAD of the chain, for every packet.
+	setRefs []setRef
+}
+
+type setRef struct {
+	name string
+	dims int
 }
 
 // item is either a condition or a statement.
@@ -195,7 +213,7 @@ type state struct {
 }
 
 func New(kind Kind, ipVersion int) *Ruleset {
-	return &Ruleset{Kind: kind, IPVersion: ipVersion, Sets: map[string]*Set{}, Maps: map[string]map[string]string{},
+	return &Ruleset{Kind: kind, IPVersion: ipVersion, Sets: map[string]*Set{}, Maps: map[string]map[string]string{}, Unloadable: map[string]string{},
 		chains: map[string]*chain{}, MaxSteps: 200000}
 }
 
@@ -224,6 +242,7 @@ func (rs *Ruleset) ReplaceChain(name string, ruleTexts []string) {
 	c := rs.getChain(name)
 	c.rules = nil
 	c.stub = false
+	rs.setsOK = false
 	for _, t := range ruleTexts {
 		var r *rule
 		var err error
@@ -301,6 +320,9 @@ func (rs *Ruleset) Dump() string {
 func (rs *Ruleset) Run(entry string, pkt *Packet) (*Result, error) {
 	if rs.err != nil {
 		return nil, rs.err
+	}
+	if err := rs.CheckSets(); err != nil {
+		return nil, err
 	}
 	if pkt.IPVersion != rs.IPVersion {
 		return nil, gapf("packet IP version %d on an IPv%d ruleset", pkt.IPVersion, rs.IPVersion)
@@ -438,6 +460,54 @@ func (p *Packet) l4(src bool) uint16 {
 		return p.SrcPort
 	}
 	return p.DstPort
+}
+
+// CheckSets validates every IP set reference of every loaded rule the way the real tools do
+// at load time.  A reference to a set in Unloadable, or (nftables) a lookup whose key type
+// does not agree with the set's type, is an *InvalidError: the chain cannot be programmed, so
+// no rule in it ever takes its action.  A name the harness never mentioned is a *GapError.
+// An iptables match that supplies fewer dimensions than the set type needs loads fine and is
+// handled at run time (the kernel's ip_set_test() then reports "no match").  Run calls this
+// itself; the result is cached until chains or the number of sets change.
+func (rs *Ruleset) CheckSets() error {
+	fp := [2]int{len(rs.Sets), len(rs.Unloadable)}
+	if rs.setsOK && rs.setsFP == fp {
+		return nil
+	}
+	var gap error
+	for _, cn := range rs.order {
+		c := rs.chains[cn]
+		if c == nil {
+			continue
+		}
+		for _, r := range c.rules {
+			for _, ref := range r.setRefs {
+				if why, bad := rs.Unloadable[ref.name]; bad {
+					return wrapErr(invalidf("IP set %q cannot be referenced from an IPv%d table: %s", ref.name, rs.IPVersion, why), cn, r.text)
+				}
+				s := rs.Sets[ref.name]
+				if s == nil {
+					if gap == nil {
+						gap = wrapErr(gapf("IP set %q referenced by a rule is not defined by the harness", ref.name), cn, r.text)
+					}
+					continue
+				}
+				if rs.Kind == NFT {
+					if ref.dims == 1 && s.IPPortType {
+						return wrapErr(invalidf("nft: plain address looked up in set %q whose type is addr . inet_proto . inet_service (datatype mismatch)", ref.name), cn, r.text)
+					}
+					if ref.dims == 2 && !s.IPPortType {
+						return wrapErr(invalidf("nft: addr . proto . port concatenation looked up in set %q whose type is a plain address (datatype mismatch)", ref.name), cn, r.text)
+					}
+				}
+			}
+		}
+	}
+	if gap != nil {
+		return gap
+	}
+	rs.setsOK, rs.setsFP = true, fp
+	return nil
 }
 
 func (st *state) setLookup(name string) (*Set, error) {
